@@ -660,3 +660,8 @@ def chk_sph_rev(inp, c):
 
 
 M.add("sphere_reverse_roundtrip", gen_sph_rev, chk_sph_rev, weight=2, min_held=100)
+
+
+# the repository's own tests as one more workload: contracts armed in situ (harness/observe.py)
+from harness import observe as _observe  # noqa: E402
+_observe.add_insitu_clause(M, ['spherical.cartesian_to_spherical'], runtime)
